@@ -233,6 +233,11 @@ func c19Run(r *vkit.Run) {
 				if i < j {
 					visit(c19Input{Relation: "equal", Queries: []string{base + " " + f.text + " " + g.text, base + " " + g.text + " " + f.text}})
 				}
+				if i < j && f.neg != "" && g.neg != "" && (i+j)%2 == 0 {
+					// negated filters commute as well, with each other and with positive ones
+					visit(c19Input{Relation: "equal", Queries: []string{base + " " + f.neg + " " + g.neg, base + " " + g.neg + " " + f.neg}})
+					visit(c19Input{Relation: "equal", Queries: []string{base + " " + f.neg + " " + g.text, base + " " + g.text + " " + f.neg}})
+				}
 				if f.pred != "" && g.pred != "" && i != j {
 					visit(c19Input{Relation: "and", Queries: []string{base + " | " + f.pred + " and " + g.pred, base + " " + f.text, base + " " + g.text}})
 					visit(c19Input{Relation: "or", Queries: []string{base + " | " + f.pred + " or " + g.pred, base + " " + f.text, base + " " + g.text}})
